@@ -1,6 +1,6 @@
 (* C02 Method instructions run once each, in source order. Statements only. *)
 From Coq Require Import ZArith List Bool Arith.
-From OP Require Import lib.Obs model.Interp model.InterpRun model.C02 proofs.Interp_inv proofs.C05_proofs proofs.Interp_fields proofs.C02_proofs.
+From OP Require Import lib.Obs model.Interp model.InterpRun model.C02 proofs.Interp_inv proofs.C05_proofs proofs.Interp_fields proofs.C02_proofs proofs.Interp_stack proofs.C02_order.
 Import ListNotations.
 Open Scope Z_scope.
 
@@ -17,7 +17,21 @@ Theorem C02_starts_at_most_once : forall p ts main s now m,
 Proof. intros p ts. exact (run_monotone p ts). Qed.
 Print Assumptions C02_starts_at_most_once.
 
-(* PARTIAL. Proved: at most once (above). Decided by the Coq monitor on the real interpreter (and on the model through the
+(* Order, scope clause. In EVERY state after every tick of EVERY run of the interpreter model (all generators: the main
+   flow and every Watch / Alarm handler, also the copies of the tick's interrupt map), for every method whose tree is well
+   formed (wf_b: child lists and parent pointers agree, the root has no parent -- evaluated by the monitor on every generated
+   method): outside the bodies of Alarms and Macros a line that has started lies in a scope (parent line) that has started.
+   A line is started only by the visit the children loop of its parent pushed, that loop runs only in a started parent,
+   and outside Alarm / Macro bodies nothing withdraws a started flag. The proof is a stack invariant (proofs/Interp_stack.v):
+   every frame of every generator belongs to a line whose parent has started; other generators cannot invalidate it. *)
+Theorem C02_a_started_line_lies_in_a_started_scope : forall p ts, wf_b p = true ->
+  Forall (fun s => forall c q, n_parent (nd p c) = Some q -> C02_order.plain p c = true -> C02_order.plain p q = true ->
+                               started (st s c) = true -> started (st s q) = true)
+         (states p [FVisit 0] (InterpRun.init p) 0 ts).
+Proof. exact started_line_lies_in_started_scope. Qed.
+Print Assumptions C02_a_started_line_lies_in_a_started_scope.
+
+(* PARTIAL. Proved: at most once and 'only inside a started scope' (above). Decided by the Coq monitor on the real interpreter (and on the model through the
    correspondence): lines at the same level start in source order, a line starts only after the line before it at that
    level has been passed (completed, failed, handed to the engine or registered as interrupt) and after its enclosing
    block / watch has started; blank and comment lines at the end of a scope are never completed. Macros are not modelled. *)
@@ -31,3 +45,12 @@ Example C02_nonvacuous :
    [(true, false); (true, true); (false, false)]; [(true, false); (true, true); (true, false)];
    [(true, false); (true, true); (true, true)]].
 Proof. vm_compute. reflexivity. Qed.
+
+(* the hypotheses of the scope theorem hold of the example: the tree is well formed, its lines are plain *)
+Example C02_scope_nonvacuous :
+  let p := [ {| n_kind := KProgram; n_parent := None; n_children := [1; 2]%nat; n_thr := false |};
+             {| n_kind := KWatch; n_parent := Some 0%nat; n_children := [3]%nat; n_thr := false |};
+             {| n_kind := KMark; n_parent := Some 0%nat; n_children := []; n_thr := false |};
+             {| n_kind := KMark; n_parent := Some 1%nat; n_children := []; n_thr := false |} ] in
+  wf_b p = true /\ map (C02_order.plain p) [0; 1; 2; 3]%nat = [true; true; true; true].
+Proof. vm_compute. split; reflexivity. Qed.
